@@ -1,7 +1,10 @@
 package hx
 
 import (
+	"time"
+
 	"github.com/dunglas/mercure"
+	bolt "go.etcd.io/bbolt"
 )
 
 // RetainedUpdates returns every update in the history of t, in history order, observed through the
@@ -34,4 +37,27 @@ func Retained(t mercure.Transport) []string {
 		ids = append(ids, u.ID)
 	}
 	return ids
+}
+
+// BoltIDs reads the ids stored in a (closed) history file directly with bbolt, in key order.
+func BoltIDs(path string) ([]string, error) {
+	db, err := bolt.Open(path, 0o600, &bolt.Options{ReadOnly: true, Timeout: time.Second})
+	if err != nil {
+		return nil, err
+	}
+	defer db.Close()
+	var ids []string
+	err = db.View(func(tx *bolt.Tx) error {
+		b := tx.Bucket([]byte("updates"))
+		if b == nil {
+			return nil
+		}
+		return b.ForEach(func(k, _ []byte) error {
+			if len(k) >= 8 {
+				ids = append(ids, string(k[8:]))
+			}
+			return nil
+		})
+	})
+	return ids, err
 }
